@@ -248,7 +248,7 @@ func saveFailure(kind string, c any, err error) {
 	}
 	msg := err.Error()
 	if len(msg) > 4000 {
-		msg = msg[:4000] + "…"
+		msg = msg[:4000] + "\u2026"
 	}
 	b, _ := json.MarshalIndent(replayFile{Property: kinds[kind].property, Kind: kind, Error: msg, Sig: sigOf(err), Case: raw}, "", " ")
 	if wErr := os.WriteFile(path, b, 0o644); wErr != nil {
